@@ -165,7 +165,7 @@ func init() {
 					// the same frame to the real server
 					before := t.nrecv.Load()
 					t.send(frame)
-					if t.waitRecv(before+1, 2*time.Second) {
+					if t.waitRecv(before+1, 15*time.Second) { // generous: a slow machine must not look like a missing reply
 						var last []byte
 						for len(t.recvCh) > 0 {
 							last = <-t.recvCh
